@@ -120,6 +120,11 @@ class PState(HState):
         elif st.startswith(b"+OK"):
             self.fail("C20.retr-invalid-accepted", {"cmd": "UIDL"}, "-ERR", st.decode("latin-1"))
 
+    def ev_pop_check(self, ev):
+        """LIST n then RETR n in one event: the size a fresh session announces is what RETR delivers."""
+        self.ev_pop_list({"n": ev["n"]})
+        self.ev_pop_retr({"n": ev["n"]})
+
     def ev_pop_raw(self, ev):
         """An odd or malformed command line: exactly one -ERR (or +OK) status line, nothing marked, nothing removed."""
         if not self._live():
